@@ -8,7 +8,7 @@ from props import c02
 ID = "C17"
 LEVEL = "proof"
 THEOREMS = ["C17_ok_means_consistent", "C17_irrelevant_records_do_not_matter", "C17_changed_base_record_refused",
-            "C17_changed_star_record_refused", "C17_missing_record_refused"]
+            "C17_changed_star_record_refused", "C17_missing_record_refused", "C17_system_ok_means_every_instance_ok", "C17_system_bad_record_refused", "C17_system_irrelevant_records_do_not_matter"]
 TRUSTED = c02.TRUSTED + ["harness reader of .mfe files (line-level transcription of nupack_out_grammar); where it and the real reader disagree on acceptance the model comparison is skipped and only the property predicate is applied",
                          "harness filler producing a design that satisfies the arrays"]
 ASSUMPTIONS = ["faults are single edits of the text of a valid .mfe: substitute / delete / insert one character of a sequence line, rename / star / unstar / damage a header, damage a numeric or structure field, drop, duplicate or swap a record, damage the Total line"]
@@ -40,7 +40,7 @@ def faults(rng, mfe, limit):
     """single-edit corruptions of a valid .mfe; yields (description, text)"""
     lines = mfe.split("\n")
     nrec = (len(lines) - 1) // 4
-    out = []
+    out = []; prio = set()
     names = [lines[4 * k].split(":", 1)[1] for k in range(nrec)]
     for k in range(nrec):
         h, s, t1, t2 = lines[4 * k:4 * k + 4]
@@ -49,9 +49,9 @@ def faults(rng, mfe, limit):
         num, name = h.split(":", 1)
         # header
         put("rename %s -> %s" % (name, name + "x"), [num + ":" + name + "x", s, t1, t2])
-        put("star toggled on %s" % name, [num + ":" + (name[:-1] if name.endswith("*") else name + "*"), s, t1, t2])
+        put("star toggled on %s" % name, [num + ":" + (name[:-1] if name.endswith("*") else name + "*"), s, t1, t2]); prio.add(len(out) - 1)
         other = rng.choice(names)
-        put("rename %s -> %s" % (name, other), [num + ":" + other, s, t1, t2])
+        put("rename %s -> %s" % (name, other), [num + ":" + other, s, t1, t2]); prio.add(len(out) - 1)
         put("header colon removed on %s" % name, [num + name, s, t1, t2])
         put("header number damaged on %s" % name, ["x" + num + ":" + name, s, t1, t2])
         # sequence field
@@ -80,7 +80,7 @@ def faults(rng, mfe, limit):
             put("%s: target structure char changed" % name, [h, s, ("." if t1[0] != "." else "(") + t1[1:], t2])
             put("%s: structure line deleted" % name, [h, s, t2])
             put("%s: structure line damaged" % name, [h, s, t1, t2 + "x"])
-        put("%s: record dropped" % name, [])
+        put("%s: record dropped" % name, []); prio.add(len(out) - 1)
         put("%s: record duplicated" % name, [h, s, t1, t2, h, s, t1, t2])
         if k + 1 < nrec:
             out.append(("records %d and %d swapped" % (k, k + 1), "\n".join(lines[:4 * k] + lines[4 * k + 4:4 * k + 8] + lines[4 * k:4 * k + 4] + lines[4 * k + 8:])))
@@ -90,10 +90,13 @@ def faults(rng, mfe, limit):
     out.append(("Total value damaged", "\n".join(lines[:4 * nrec] + [total + "x"])))
     out.append(("blank line inserted", "\n".join(lines[:4] + [""] + lines[4:])))
     if limit and len(out) > limit:
-        keep = [o for o in out if "base" not in o[0]]
+        # always kept, for every record: star toggled, renamed onto another record, record dropped (the faults whose effect depends on
+        # which record they hit: a sequence outside every structure, a sequence on no strand); then the sampled rest up to the limit
+        first = [o for i, o in enumerate(out) if i in prio]
+        keep = [o for i, o in enumerate(out) if "base" not in o[0] and i not in prio]
         bases = [o for o in out if "base" in o[0]]
         rng.shuffle(bases)
-        out = keep[:limit // 2] + bases[:limit - min(len(keep), limit // 2)]
+        out = first + keep[:limit // 2] + bases[:limit - min(len(keep), limit // 2)]
     return out
 
 def impl_case(case):
@@ -147,6 +150,12 @@ def run(tier, seed, build):
                  "includes": [], "base": "prog", "args": []}
         else:
             c = {k: v for k, v in c02.gen_case(rng).items() if not k.startswith("_")}
+        if not cases:      # once per run: a component with a sequence on no strand and a strand in no structure (records nothing else cross-checks)
+            prog = pepper.sat_component(rng, name="prog", allow_zero=False, nstmts=3)
+            prog["body"] += [["seq", "zfree", [["nuc", [[6, "N"]]]], None], ["seq", "zfs", [["nuc", [[2, "N"], [3, "S"]]]], None],
+                             ["strand", False, "zfreeS", [["ref", "zfs", False], ["ref", "zfs", False]], None]]
+            c = {"files": {"prog.comp": pepper.comp_text(rng, prog)}, "entries": [["prog.comp", False, [], [prog["decl"], prog["body"]]]],
+                 "includes": [], "base": "prog", "args": []}
         c["seed"] = rng.randrange(10**9); c["limit"] = limit
         cases.append(c)
     impl = fw.run_impl("props.c17", "impl_case", cases, per_case_timeout=600, procs=8, chunksize=1)
